@@ -15,7 +15,8 @@ Record sstate := mk_ss {
   p_latest : nat -> Z -> option Z;        (* instrument, attribute set: the most recently reported total / value *)
   p_base : nat -> nat -> Z -> Z;          (* instrument, reader, attribute set: the total the reader was last given (0: never) *)
   p_touched : nat -> nat -> Z -> bool;    (* instrument, reader, attribute set: reported since the reader's last collection *)
-  p_multi : nat -> bool;                  (* some collection reported one attribute set of the instrument more than once *)
+  p_multi : nat -> bool;                  (* some collection reported one attribute set of the instrument more than once
+                                             (the last report counts; kept for the coverage tags only) *)
   p_skip : nat -> bool;                   (* outside the property's domain: a negative total on a monotonic counter *)
   p_clock_ok : bool                       (* the clock has been strictly increasing in call order so far *)
 }.
@@ -126,10 +127,8 @@ Definition is_nil {A} (l : list A) : bool := match l with [] => true | _ => fals
 Definition value_tag (c : cfg) (ss : sstate) (i r : nat) : string :=
   let k := kind_of c i in
   if is_last k then (if is_async k then "gauge_reports_latest:observable" else "gauge_reports_latest:synchronous")
-  else if cumulative c r
-       then (if p_multi ss i then "cumulative_reader_gets_reported_total:multi_observation" else "cumulative_reader_gets_reported_total:value")
-       else (if p_multi ss i then "delta_reader_gets_difference_from_own_last:multi_observation"
-             else "delta_reader_gets_difference_from_own_last:value").
+  else if cumulative c r then "cumulative_reader_gets_reported_total:value"
+  else "delta_reader_gets_difference_from_own_last:value".
 
 (* [ss] is the state after the collection's reports and before the reader is marked up to date *)
 Definition check_instr (c : cfg) (ss : sstate) (r i : nat) (obs : option (Z * list (Z * point))) : list tok :=
